@@ -138,7 +138,7 @@ async def correspond(ctx):
 async def search(ctx):
     import corr_kernel as _ck
 
-    await _ck.run_scenarios(ctx, lambda ctx, run_: Observer(ctx, run_), ["nested_chain", "deferred_wakeup", "amended_consumer_rerun", "hold_recycle", "resource_race", "shrink_resources"])
+    await _ck.run_scenarios(ctx, lambda ctx, run_: Observer(ctx, run_), ["nested_chain", "deferred_wakeup", "amended_consumer_rerun", "hold_recycle", "resource_race", "shrink_resources", "retarget_optional"])
     import contextlib
 
     import corr_kernel
